@@ -108,6 +108,9 @@ def run_tree(rec, tier, seed, ti, spec, other):
         have_moved = not grammar.check(moved) and not bad_names
         if have_moved:
             stage.write_tree(xml_root + ".other", S.render(moved))
+        # an earlier revision of the same files (other enum ordinals and wire types everywhere), read first by the same
+        # generator instance in the "same-instance-earlier-revision" configuration
+        stage.write_tree(xml_root + ".earlier", S.render(campaign.earlier_revision(spec)))
         base_out = os.path.join(work, "out-base")
         base = drive(stage.REPO, xml_root, base_out)
         rec.case((ti, "baseline"), nontrivial=sum(1 for f in spec.files.values() if f.enums or f.structs or f.packets) >= 2)
@@ -129,6 +132,7 @@ def run_tree(rec, tier, seed, ti, spec, other):
                    ("relative-roots", dict(mode="relative-roots")), ("dot-root", dict(mode="dot-root")), ("unnormalised-roots", dict(mode="unnormalised-roots")),
                    ("symlinked-roots", dict(mode="symlinked-roots")),
                    ("twice-with-clean-between", dict(mode="twice-with-clean-between"))]
+        configs.append(("same-instance-earlier-revision", dict(mode="same-instance-earlier-revision")))
         if have_moved:
             configs.append(("other-tree-first", dict(mode="other-tree-first")))
             configs.append(("same-instance-edited", dict(mode="same-instance-edited")))
